@@ -72,9 +72,9 @@ Proof.
     f_equal; [apply bits_msb8_inj; assumption|apply IH; assumption].
 Qed.
 
-Theorem hpack_encode_is_rfc s : wf_bytes s -> hpack_encode s = Ok (rfc_huff_encode s).
+Theorem hpack_encode_is_rfc s : wf_bytes s -> enc_fits s -> hpack_encode s = Ok (rfc_huff_encode s).
 Proof.
-  intros Hwf. destruct (hpack_encode_valid s Hwf) as (e & He & Hwe & (_ & pad & Hbits & Hlen & Hones) & _).
+  intros Hwf Hfit. destruct (hpack_encode_valid s Hwf Hfit) as (e & He & Hwe & (_ & pad & Hbits & Hlen & Hones) & _).
   rewrite He. f_equal. unfold rfc_huff_encode.
   destruct (bytes_of_bits_spec (length (codes s)) (codes s) (le_n _)) as [Hwr Hbr].
   apply bits_of_bytes_inj; [assumption|assumption|].
